@@ -19,8 +19,9 @@ const (
 	outIncomplete  = "incomplete"     // ends inside a frame (or inside a length prefix): connection stays open
 	outBadLength   = "invalid-length" // length prefix < 4 or > max
 	outUnknownID   = "unknown-id"
-	outMalformed   = "malformed" // body does not decode
-	outUnderflow   = "underflow" // body decodes but leaves trailing bytes
+	outMalformed   = "malformed"     // body does not decode
+	outUnderflow   = "underflow"     // body decodes but leaves trailing bytes
+	outHandlerErr  = "handler-error" // a well-formed message whose handler returns an error (gnet.Handler: "the connection will be disconnected")
 	minFrameLength = 4
 )
 
@@ -137,5 +138,11 @@ func refParse(stream []byte, maxLen int) refResult {
 			continue
 		}
 		res.Delivered = append(res.Delivered, refMsg{ID: id, Body: append([]byte(nil), frame[4:]...)})
+		if id == poolmsg.IDFail {
+			// delivered to its handler, which refuses it: the connection ends here
+			failed = true
+			res.Outcome = outHandlerErr
+			res.BadFrame = idx
+		}
 	}
 }
